@@ -23,16 +23,24 @@ Lemma f1_witness_facts :
     last_id l = (0, false) /\                               (* ... but LastID reports 0 *)
     append_accepts unfixed l d 1000 = true /\               (* any id can be appended (gap) *)
     log_iterate unfixed l d 2 = (0%Z, []).
-Proof. vm_compute. do 3 eexists. repeat split. Qed.
+Proof. do 3 eexists. split; [vm_compute; reflexivity|]. repeat split; vm_compute; reflexivity. Qed.
+
+Ltac run_op_concrete H :=
+  match type of H with
+  | context [op_run ?fx ?m ?lv ?op] =>
+    let E := fresh "E" in
+    destruct (op_run fx m lv op) as [[[?rc ?ol] ?d] ?ms] eqn:E;
+    vm_compute in E; inversion E; subst; clear E
+  end.
 
 Lemma f1_refuted : ~ crash_atomic_at unfixed 40 f1_ops 2 1 None.
 Proof.
   unfold crash_atomic_at. cbn [nth_error f1_ops].
-  intros H.
+  intros H. run_op_concrete H.
   assert (Hj : (1 <= 4)%nat) by lia.
-  vm_compute in H. specialize (H Hj I).
+  specialize (H Hj I).
   destruct H as (l & d' & ms & recs & Hopen & Hit & _ & _ & _ & _ & Hlast & _).
-  inversion Hopen; subst; clear Hopen.
+  vm_compute in Hopen. inversion Hopen; subst; clear Hopen.
   vm_compute in Hit. inversion Hit; subst; clear Hit.
   vm_compute in Hlast. discriminate Hlast.
 Qed.
@@ -40,15 +48,17 @@ Qed.
 Lemma f2_refuted : ~ crash_atomic_at unfixed 40 f2_ops 1 0 (Some 5).
 Proof.
   unfold crash_atomic_at. cbn [nth_error f2_ops].
-  intros H.
+  intros H. run_op_concrete H.
   assert (Hj : (0 <= 2)%nat) by lia.
-  vm_compute in H.
-  assert (Hc : exists (s : N) (x : bytes),
-     Some (MWrite 0 (serialize r1)) = Some (MWrite s x) /\ 5 < blen x).
-  { exists 0, (serialize r1). split; [reflexivity|]. vm_compute. reflexivity. }
-  vm_compute in Hc. specialize (H Hj Hc).
+  specialize (H Hj).
+  match type of H with
+  | cut_ok ?ms _ _ -> _ =>
+    assert (Hc : cut_ok ms 0 (Some 5))
+  end.
+  { cbn [cut_ok nth_error]. do 2 eexists. split; [reflexivity|]. vm_compute. reflexivity. }
+  specialize (H Hc).
   destruct H as (l & d' & ms & recs & Hopen & _).
-  discriminate Hopen.
+  vm_compute in Hopen. discriminate Hopen.
 Qed.
 
 (* the same two crash points on the repaired model satisfy the sentence's checkable clauses *)
@@ -61,7 +71,7 @@ Lemma f1_repaired_facts :
     first_id l = (1, false) /\ last_id l = (1, false) /\
     append_accepts repaired l d 1000 = false /\ append_accepts repaired l d 1 = false /\
     append_accepts repaired l d 2 = true.
-Proof. vm_compute. do 3 eexists. repeat split. Qed.
+Proof. do 3 eexists. split; [vm_compute; reflexivity|]. repeat split; vm_compute; reflexivity. Qed.
 
 Lemma f2_repaired_facts :
   exists l d ms,
@@ -71,4 +81,29 @@ Lemma f2_repaired_facts :
     log_iterate repaired l d 0 = (0%Z, []) /\
     first_id l = (0, true) /\ last_id l = (0, true) /\
     append_accepts repaired l d 1 = true.
-Proof. vm_compute. do 3 eexists. repeat split. Qed.
+Proof. do 3 eexists. split; [vm_compute; reflexivity|]. repeat split; vm_compute; reflexivity. Qed.
+
+Lemma valid_r1 : valid_rec r1.
+Proof. split; vm_compute; [reflexivity | discriminate]. Qed.
+Lemma valid_r2 : valid_rec r2.
+Proof. split; vm_compute; [reflexivity | discriminate]. Qed.
+
+Lemma f1_refuted_packed :
+  exists maxsz ops i j cut,
+    0 < maxsz /\ Forall valid_op ops /\ hd_error ops = Some OReopen /\
+    ~ crash_atomic_at unfixed maxsz ops i j cut.
+Proof.
+  exists 40, f1_ops, 2%nat, 1%nat, None. repeat split.
+  - repeat constructor; cbn; try apply valid_r1; try apply valid_r2.
+  - exact f1_refuted.
+Qed.
+
+Lemma f2_refuted_packed :
+  exists maxsz ops i j cut,
+    0 < maxsz /\ Forall valid_op ops /\ hd_error ops = Some OReopen /\
+    ~ crash_atomic_at unfixed maxsz ops i j cut.
+Proof.
+  exists 40, f2_ops, 1%nat, 0%nat, (Some 5). repeat split.
+  - repeat constructor; cbn; try apply valid_r1.
+  - exact f2_refuted.
+Qed.
